@@ -14,30 +14,30 @@ import (
 )
 
 type G struct {
-	id      int
-	name    string
-	wake    chan struct{}
-	started bool
-	done    bool
-	waiting func() bool // nil => runnable
-	what    string
-	fnv     Value
-	args    []Value
-	held    []*mutexState // locks currently held (lockset)
-	announced []*Chan      // unbuffered channels this goroutine is parked receiving on
-	committed *Chan        // unbuffered channel on which a sender has handed it a value
+	id        int
+	name      string
+	wake      chan struct{}
+	started   bool
+	done      bool
+	waiting   func() bool // nil => runnable
+	what      string
+	fnv       Value
+	args      []Value
+	held      []*mutexState // locks currently held (lockset)
+	announced []*Chan       // unbuffered channels this goroutine is parked receiving on
+	committed *Chan         // unbuffered channel on which a sender has handed it a value
 	spin      int
-	role    string
+	role      string
 }
 
 type Chan struct {
 	buf     []Value
 	cap     int
 	closed  bool
-	waiters []*G // goroutines parked in a receive (or a select with a receive case) on this channel
-	ctx    *Ctx  // Done() channel of a context
-	tick   *Value // ticker channel (harness/stub driven)
-	nrecv  int
+	waiters []*G   // goroutines parked in a receive (or a select with a receive case) on this channel
+	ctx     *Ctx   // Done() channel of a context
+	tick    *Value // ticker channel (harness/stub driven)
+	nrecv   int
 }
 
 type Ctx struct {
@@ -50,8 +50,8 @@ type nativeObj interface {
 	method(in *Interp, name string, args []Value) Value
 }
 
-var ctxNamedType types.Type   // context.Context
-var errCanceled Value         // context.Canceled (Iface)
+var ctxNamedType types.Type // context.Context
+var errCanceled Value       // context.Canceled (Iface)
 var hostWG sync.WaitGroup
 
 func (c *Ctx) isCancelled() bool {
